@@ -1,7 +1,10 @@
 """Crash wrapper of check C10: runs a real generated job script and makes the process die at the
 n-th executed line of experimaestro/run.py or of the task body.
 
-    python -m vpk_c10.crashrun <script.py> <eventlog> <KILL|TERM|INT|NONE> <n>
+    python -m vpk_c10.crashrun <script.py> <eventlog> <KILL|TERM|INT|NONE> <n> [<n2>]
+
+(n2 > n: a second death, SIGKILL at the n2-th executed line, i.e. while the handler of the first signal,
+the except clauses it triggers or the exit callback run.)
 
 Nothing in /repo is changed: the wrapper installs (in this process only) a trace function that counts
 executed lines, an audit hook and thin wrappers around atexit.register/unregister and signal.signal
@@ -12,9 +15,12 @@ Event log lines:
   L <n> <file>:<lineno>          traced line about to execute (file = run | task)
   E <name>                       an observable effect just happened / is being issued
   K <sig> <ctx> <n> <file>:<lineno>   the signal is sent now; ctx = try | prop | atexit
+                                 (also appended by the driver when it sends the signal from outside to a
+                                 process that is blocked on the run lock)
 """
 import ast
 import atexit
+import json
 import os
 import runpy
 import signal
@@ -53,14 +59,22 @@ def try_ranges(path):
 
 def main():
     script, logpath, signame, n = sys.argv[1], sys.argv[2], sys.argv[3], int(sys.argv[4])
+    n2 = int(sys.argv[5]) if len(sys.argv) > 5 else 0
     # the dispositions a job process starts with when the scheduler spawns it
     signal.signal(signal.SIGTERM, signal.SIG_DFL)
     signal.signal(signal.SIGINT, signal.default_int_handler)
 
-    # the scheduler writes <name>.pid right after spawning; do not start before it is there
+    # the scheduler writes <name>.pid right after spawning; do not start before it is there (and names this
+    # process: a second process for the same job finds the file of the first one)
     pidfile = os.path.splitext(script)[0] + ".pid"
     t0 = time.time()
-    while not os.path.exists(pidfile):
+    while True:
+        try:
+            with open(pidfile) as fp:
+                if json.load(fp).get("pid") == os.getpid():
+                    break
+        except (OSError, ValueError, AttributeError):
+            pass
         if time.time() - t0 > 60:
             os._exit(97)  # the launching side never wrote the pid file: harness failure, not an observation
         time.sleep(0.002)
@@ -117,6 +131,23 @@ def main():
                 return suffix
         return None
 
+    def lock_target(fd):
+        try:
+            return os.readlink("/proc/self/fd/%d" % (fd if isinstance(fd, int) else fd.fileno())).endswith(".lock")
+        except (OSError, ValueError, AttributeError):
+            return False
+
+    # taking the lock is an effect once it has succeeded (a process that waits for the lock tries again and again)
+    def locker(real):
+        def f(fd, cmd, *a):
+            r = real(fd, cmd, *a)
+            if cmd & (fcntl.LOCK_EX | fcntl.LOCK_SH) and not cmd & fcntl.LOCK_UN and lock_target(fd):
+                emit("E Lock")
+            return r
+        return f
+
+    fcntl.lockf, fcntl.flock = locker(fcntl.lockf), locker(fcntl.flock)
+
     def hook(event, args):
         if busy[0]:
             return
@@ -154,15 +185,8 @@ def main():
                     emit("E Rm" + m.capitalize())
             elif event in ("fcntl.lockf", "fcntl.flock"):
                 fd, cmd = args[0], args[1]
-                try:
-                    target = os.readlink("/proc/self/fd/%d" % fd)
-                except OSError:
-                    target = ""
-                if target.endswith(".lock"):
-                    if cmd & fcntl.LOCK_UN:
-                        emit("E Unlock")
-                    elif cmd & (fcntl.LOCK_EX | fcntl.LOCK_SH):
-                        emit("E Lock")
+                if lock_target(fd) and cmd & fcntl.LOCK_UN:
+                    emit("E Unlock")
         finally:
             busy[0] = False
 
@@ -194,6 +218,9 @@ def main():
             if sig is not None and count[0] == n:
                 emit("K %s %s %d %s:%d" % (signame, context(frame), n, tag, frame.f_lineno))
                 os.kill(os.getpid(), sig)
+            elif n2 and count[0] == n2 and n2 > n > 0:
+                emit("K KILL %s %d %s:%d" % (context(frame), n2, tag, frame.f_lineno))
+                os.kill(os.getpid(), signal.SIGKILL)
         return local
 
     def tracer(frame, event, arg):
